@@ -46,16 +46,21 @@ struct System {
   std::function<std::vector<Pt>(int)> points;
   // reference model: append expectations; return false if the assignment is inadmissible at this point
   std::function<bool(const Params&, const Pt&, std::vector<Expect>&)> reference;
+  // optional replacement of the generic deviation alphabet {default,0,-base,2*base+1/8}: (name, base, default) -> candidate values
+  std::function<std::vector<LD>(const std::string&, LD, LD)> alphabet;
   // parameters that must never deviate independently (derived ones); engine keeps them at base
   std::vector<std::string> frozen;
   // optional hook run after every assignment change (e.g. re-derive dependent parameters)
   std::function<void(Params&)> derive;
   std::vector<std::string> extra_props;  // further properties its expectations are tagged with (e.g. C07 gradients)
+  bool base_from_default;  // base = library defaults x distinct factors in (1, 1.07) instead of the generic base
   int max_dev_quick, max_dev_thorough;
-  System() : dim(1), max_dev_quick(1), max_dev_thorough(2) {}
+  System() : dim(1), base_from_default(false), max_dev_quick(1), max_dev_thorough(2) {}
 };
 
 std::vector<System>& e1_systems();
+void e1_count(const std::string& key);  // coverage counters reported in the evidence (e.g. which model branch a point took)
+Q e1_callback_ref(int k, Q T); int e1_callback_count();
 struct E1Register { E1Register(const System& s) { e1_systems().push_back(s); } };
 
 // helpers for reference models -------------------------------------------------------------
@@ -65,6 +70,8 @@ static inline Expect mk(const char* prop, const char* fn, const char* sig, const
   e.ref = ref; return e;
 }
 static const int V_X[] = {0}, V_XY[] = {0, 1}, V_XYZ[] = {0, 1, 2}, V_XYZT[] = {0, 1, 2, 3}, V_XT[] = {0, 3}, V_XYT[] = {0, 1, 3};
+// keep `bits` significant bits: exactly representable in double, long double and float128
+static inline LD dyround(LD v, int bits = 24) { if (v == 0) return 0; int e; LD m = frexpl(v, &e); return ldexpl(roundl(ldexpl(m, bits)), e - bits); }
 // dyadic rational helper: k/1024
 static inline LD dy(long k) { return (LD)k / 1024.0L; }
 // product lattice: n values per coordinate (n=2 quick, 3 thorough) on the first `dim` jet variables (+ time if tr)
